@@ -5,6 +5,7 @@ From Coq Require Import List Arith Bool.
 Import ListNotations.
 From LCC Require Import Base.Util Model.Proj Model.Sched Model.Fixture Model.TaskSem Model.TaskSemEq Model.Attach
      Proofs.ProtocolP Proofs.AttachP.
+From LCC Require Model.Report Model.Events Model.Writer Proofs.WriterFilingP.
 
 (* Everything a task emits (logs, checks, urls, attachments) — from its own thread or from any thread it started — carries
    the task's own location and the identifier of the emitting thread. The report writer files a log under
@@ -36,3 +37,39 @@ Print Assumptions C06_attachment_names_distinct.
 Theorem C06_attach_without_lock_refuted : exists sched nthreads, ~ NoDup (names_of (run_unlocked nthreads sched)).
 Proof. exact unlocked_names_collide. Qed.
 Print Assumptions C06_attach_without_lock_refuted.
+
+(* ---- the report writer (Model/Writer.v = reporting/writer.py ReportWriter, tied to the code by C18's correspondence) ----
+   "recorded in that test's own result, inside the step that was current in the emitting thread ... and never in the result
+   of another test": for ANY event stream the writer accepts (no hypothesis on the stream at all). *)
+Module WriterLevel.
+Import Report Events Writer WriterFilingP.
+
+(* the step object the writer holds open for a thread always exists: it is a step of a result that is in the report *)
+Theorem C06_writer_open_steps_exist : forall evs w, apply_all init_wstate evs = Ok w ->
+  forall th loc i, lookup_active th (w_active w) = Some (loc, i) ->
+  exists r, get_result w loc = Some r /\ i < length (r_steps r).
+Proof. exact active_wellformed. Qed.
+Print Assumptions C06_writer_open_steps_exist.
+
+(* a log / check / url / attachment event is appended to the step that is open for its EMITTING THREAD, in the result that
+   owns that step, at the end of that step's logs (emission order), and nothing else changes: no other result, no other
+   thread's open step *)
+Theorem C06_writer_files_log_under_emitting_thread : forall w e w' loc th lg loc' i,
+  apply w e = Ok w' -> steplog_of e = Some (loc, th, lg) -> lookup_active th (w_active w) = Some (loc', i) ->
+  exists r, get_result w loc' = Some r /\ i < length (r_steps r) /\
+            get_result w' loc' = Some (result_add_log i lg r) /\
+            (forall l, l <> loc' -> get_result w' l = get_result w l) /\
+            w_active w' = w_active w /\ w_start w' = w_start w /\ w_end w' = w_end w.
+Proof. exact log_filed_with_thread. Qed.
+Print Assumptions C06_writer_files_log_under_emitting_thread.
+
+(* no leak, global form: whatever a result of the report holds was emitted by a thread whose open step belonged to that very
+   result at that moment *)
+Theorem C06_report_logs_come_from_owning_threads : forall evs w, apply_all init_wstate evs = Ok w ->
+  forall loc r lg, get_result w loc = Some r -> In lg (logs_of r) ->
+  exists evs1 e evs2 w1 l0 th i,
+    evs = evs1 ++ e :: evs2 /\ apply_all init_wstate evs1 = Ok w1 /\
+    steplog_of e = Some (l0, th, lg) /\ lookup_active th (w_active w1) = Some (loc, i).
+Proof. exact logs_come_from_events. Qed.
+Print Assumptions C06_report_logs_come_from_owning_threads.
+End WriterLevel.
